@@ -13,7 +13,7 @@ IMPORTS = "From Verif Require Import Values ExtEvent.\nOpen Scope string_scope."
 PHASES = ['PNotStarted', 'PTaskCreated', 'PInitialising', 'PRunning', 'PAborting', 'PCleaningUp',
           'PFinished']
 SOURCES = ['', '_ext_', '_ext', 'gui', '_ext_gui', 'ext_', '_', '__ext_', '_EXT_x', 'x_ext_', ' _ext_']
-VALUES = [["i", 0], ["i", 5], ["b", False], ["none"], ["s", "v"], ["f", "3/2"], ["t", [1, 2]]]
+VALUES = [["i", 0], ["i", 5], ["b", False], ["none"], ["s", "v"], ["f", "3/2"], ["t", [1, 2]], ["m", [["k", 1]]]]
 
 
 class SlowInit(edzed.AddonAsync, edzed.SBlock):
@@ -38,6 +38,15 @@ class Probe(edzed.SBlock):
         if etype == 'boom':
             raise RuntimeError('handler failure')
         return 'tok:' + self.name
+
+
+class PProbe(edzed.AddonPersistence, Probe):
+    """a destination that keeps persistent state: its event() goes through AddonPersistence"""
+    def get_state(self):
+        return self.output
+
+    def _restore_state(self, state):
+        self.set_output(state)
 
 
 class C14(common.Spec):
@@ -126,7 +135,7 @@ class C14(common.Spec):
                 except Exception as err:
                     obs[i] = dict(kind='refused', err=common.exc_enum(err), delivered=len(log))
                     continue
-                expected_ret = {'p': 'tok:p', 'inp': True}.get(c['dest'], None)
+                expected_ret = {'p': 'tok:p', 'pp': 'tok:pp', 'inp': True}.get(c['dest'], None)
                 if c['dest'] == 'cnt':
                     expected_ret = dest.output
                 obs[i] = dict(kind='delivered', n=len(log),
@@ -139,7 +148,8 @@ class C14(common.Spec):
             # two of the destinations keep persistent state (send() must return the handler's value
             # through AddonPersistence.event as well)
             circuit.set_persistent_data({})
-            dests = dict(p=Probe('p'), inp=edzed.Input('inp', initdef=0, persistent=True),
+            dests = dict(p=Probe('p'), pp=PProbe('pp', persistent=True),
+                         inp=edzed.Input('inp', initdef=0, persistent=True),
                          cnt=edzed.Counter('cnt', persistent=True))
             SlowInit('slowinit', init_timeout=20)
             SlowStop('slowstop', stop_timeout=20)
@@ -300,12 +310,12 @@ def gen_cases(run):
             for _ in range(n_per * (3 if ph in ('PRunning', 'PInitialising') else 1)):
                 items = {}
                 value = rng.choice([None] + VALUES)
-                for k in ('a', 'b', 'value', 'orig_source', 'trigger'):
+                for k in ('a', 'b', 'value', 'orig_source', 'trigger', 'etype'):
                     if rng.random() < 0.3 and not (k == 'value' and value is not None):
                         items[k] = rng.choice(VALUES)
                 r = rng.random()
                 src = ['absent'] if r < 0.4 else (['other'] if r < 0.5 else ['str', rng.choice(SOURCES)])
-                cases.append(dict(kind='send', scenario=scen, phase=ph, dest='p', etype='ev',
+                cases.append(dict(kind='send', scenario=scen, phase=ph, dest=rng.choice(['p', 'pp']), etype='ev',
                                   dflt=rng.choice([None] + SOURCES),
                                   value=value, src=src, items=items))
     # every source string as default and as caller's source in a running circuit (exhaustive on the pool)
